@@ -34,6 +34,26 @@ Theorem C05_unconfigured_vector_is_error : forall s rq,
   hq_filters rq = [] -> hq_groups rq = [] -> hq_vec rq <> [] -> hy_vec s = None ->
   hy_search s rq = HErr E_NOTCONFIGURED.
 Proof.
-  intros s rq Hf Hg Hv Hn. unfold hy_search. rewrite Hf, Hg, Hn. destruct (hq_vec rq); [contradiction|]. reflexivity.
+  intros s rq Hf Hg Hv Hn. unfold hy_search, hy_vpart, hy_vq. rewrite Hf, Hg, Hn. destruct (hq_vec rq); [contradiction|]. reflexivity.
 Qed.
 Print Assumptions C05_unconfigured_vector_is_error.
+
+(** Either the filter matched nothing, or the answer is a best-first arrangement of the fusion of
+    (a) the vector sub-index's own answer (at most k pairs) to the query restricted to the metadata
+    candidates and (b) the text sub-index's answer likewise (the single modality's answer when only
+    one is queried; score 1 for every candidate of a metadata-only query) — so every returned id
+    matches the filter's candidate set through the sub-search it came from, and is among the k best
+    vector matches or the k best text matches computed inside that set.  With a flat vector index
+    (a) is the exact filtered top-k (C01); the fusion laws themselves are C19. *)
+From Comet Require Import Proofs.HybridModalP.
+Theorem C05_results_come_from_modalities : forall s rq o,
+  hy_search s rq = HOk o ->
+  (ho_cands o = Some [] /\ ho_full o = []) \/
+  exists vl tl,
+    is_vec_part s rq (hy_docids (ho_cands o)) vl /\ is_txt_part s rq (hy_docids (ho_cands o)) tl /\
+    Permutation (hy_combined rq (hy_docids (ho_cands o)) vl tl) (ho_full o) /\
+    (forall j, In j (map fst (ho_full o)) ->
+       if hy_vq rq || hy_tq rq then In j (map fst vl) \/ In j (map fst tl)
+       else In j (hy_docids (ho_cands o))).
+Proof. exact hy_results_from_modalities. Qed.
+Print Assumptions C05_results_come_from_modalities.
